@@ -535,51 +535,51 @@ namespace chaiscript {
         }
 #endif
 
-        if (loc == 0) {
-          auto &stack = get_stack_data(t_holder);
+        auto &stack = get_stack_data(t_holder);
 
-          // Is it in the stack?
-          for (auto stack_elem = stack.rbegin(); stack_elem != stack.rend(); ++stack_elem) {
-            for (auto s = stack_elem->begin(); s != stack_elem->end(); ++s) {
-              if (s->first == name) {
-                t_loc = static_cast<uint_fast32_t>(std::distance(stack.rbegin(), stack_elem) << 16)
-                    | static_cast<uint_fast32_t>(std::distance(stack_elem->begin(), s)) | static_cast<uint_fast32_t>(Loc::located)
-                    | static_cast<uint_fast32_t>(Loc::is_local);
-                CHAISCRIPT_VERIF_EVENT("get",
-                                       &t_holder,
-                                       name,
-                                       0,
-                                       static_cast<long>(std::distance(stack.rbegin(), stack_elem)),
-                                       static_cast<long>(std::distance(stack_elem->begin(), s)),
-                                       s->first);
-                return s->second;
+        if ((loc & static_cast<uint_fast32_t>(Loc::is_local)) != 0u) {
+          // The stored location is only a guess: the same node can be evaluated again under a different
+          // arrangement of local variables. It is used only if it still names the innermost `name`.
+          const auto dist = static_cast<std::size_t>((loc & static_cast<uint_fast32_t>(Loc::stack_mask)) >> 16);
+          const auto idx = static_cast<std::size_t>(loc & static_cast<uint_fast32_t>(Loc::loc_mask));
+          if (dist < stack.size()) {
+            auto &scope = stack[stack.size() - 1 - dist];
+            if (idx < scope.size() && (scope.begin() + static_cast<std::ptrdiff_t>(idx))->first == name) {
+              bool shadowed = false;
+              for (std::size_t d = 0; d < dist && !shadowed; ++d) {
+                shadowed = stack[stack.size() - 1 - d].count(name) != 0;
+              }
+              if (!shadowed) {
+                CHAISCRIPT_VERIF_EVENT("get", &t_holder, name, 1, static_cast<long>(dist), static_cast<long>(idx), (scope.begin() + static_cast<std::ptrdiff_t>(idx))->first);
+                return scope.at_index(idx);
               }
             }
           }
+        }
 
-          t_loc = static_cast<uint_fast32_t>(Loc::located);
-        } else if ((loc & static_cast<uint_fast32_t>(Loc::is_local)) != 0u) {
-          auto &stack = get_stack_data(t_holder);
-
-#ifdef CHAISCRIPT_VERIF
-          {
-            // logged before the positional read so that an out of range hint is recorded even if the read then faults
-            const auto verif_dist = static_cast<std::size_t>((loc & static_cast<uint_fast32_t>(Loc::stack_mask)) >> 16);
-            const auto verif_slot = static_cast<std::size_t>(loc & static_cast<uint_fast32_t>(Loc::loc_mask));
-            const bool verif_in_range = verif_dist < stack.size() && verif_slot < stack[stack.size() - 1 - verif_dist].size();
-            CHAISCRIPT_VERIF_EVENT("get",
-                                   &t_holder,
-                                   name,
-                                   1,
-                                   verif_in_range ? static_cast<long>(verif_dist) : -2,
-                                   verif_in_range ? static_cast<long>(verif_slot) : -2,
-                                   verif_in_range ? std::string_view((stack[stack.size() - 1 - verif_dist].begin() + static_cast<std::ptrdiff_t>(verif_slot))->first)
-                                                  : std::string_view(""));
+        // Is it in the stack? (also asked for names last seen as globals or functions: a local may exist now)
+        for (auto stack_elem = stack.rbegin(); stack_elem != stack.rend(); ++stack_elem) {
+          for (auto s = stack_elem->begin(); s != stack_elem->end(); ++s) {
+            if (s->first == name) {
+              t_loc = static_cast<uint_fast32_t>(std::distance(stack.rbegin(), stack_elem) << 16)
+                  | static_cast<uint_fast32_t>(std::distance(stack_elem->begin(), s)) | static_cast<uint_fast32_t>(Loc::located)
+                  | static_cast<uint_fast32_t>(Loc::is_local);
+              CHAISCRIPT_VERIF_EVENT("get",
+                                     &t_holder,
+                                     name,
+                                     0,
+                                     static_cast<long>(std::distance(stack.rbegin(), stack_elem)),
+                                     static_cast<long>(std::distance(stack_elem->begin(), s)),
+                                     s->first);
+              return s->second;
+            }
           }
-#endif
+        }
 
-          return stack[stack.size() - 1 - ((loc & static_cast<uint_fast32_t>(Loc::stack_mask)) >> 16)].at_index(
-              loc & static_cast<uint_fast32_t>(Loc::loc_mask));
+        if (loc == 0 || (loc & static_cast<uint_fast32_t>(Loc::is_local)) != 0u) {
+          // not (or no longer) a local
+          t_loc = static_cast<uint_fast32_t>(Loc::located);
+          loc = static_cast<uint_fast32_t>(Loc::located);
         }
 
         // Is the value we are looking for a global or function?
